@@ -150,6 +150,7 @@ def run(ctx):
     no_path_cases(ctx, S, ns)
     spec_reading_cases(ctx)
     no_switch_cases(ctx, S)
+    tone_list_cases(ctx, S)
     repeated_statement_cases(ctx, S)
     ctx.explanation = ("Theorems for an ARBITRARY tracer: the three evaluators compute the same outcome whenever they have the same spec; folding "
                        "returns a path only if the run-time routes return that path; no spec / non-device callee / failing kernel give no path on "
@@ -175,6 +176,64 @@ def pos_text(ap):
         else:
             out.append(f"S({a[1]},{a[4]},{a[5]})")
     return " ".join(out)
+
+
+def tone_list_cases(ctx, S):
+    """device functions whose tone lists are empty on one or both axes, a single tone, non-contiguous tones: every route returns the
+    traced path of the kernel with exactly those tones, forward and reversed; a failing kernel gives no path whatever the tones"""
+    kinds = {
+        "kex": ("[]", "[0]", "    g = grid.from_positions([], [p1])\n"),
+        "key": ("[0, 1]", "[]", "    g = grid.from_positions([p0, p0 + 2.0], [])\n"),
+        "kexy": ("[]", "[]", "    g = grid.from_positions([], [])\n"),
+        "kone": ("[3]", "[5]", "    g = grid.from_positions([p0], [p1])\n"),
+        "kgap": ("[1, 4]", "[2]", "    g = grid.from_positions([p0, p0 + 2.0], [p1])\n"),
+    }
+    body = ("    action.set_loc(g)\n    action.turn_on(action.ALL, action.ALL)\n    action.move(grid.shift(g, 1.0, 0.5))\n"
+            "    action.move(grid.shift(g, 1.0, 2.5))\n    action.turn_off(action.ALL, action.ALL)\n")
+    n_ok = 0
+    for kname, (xt, yt, head) in kinds.items():
+        ksrc = f"@tweezer\ndef {kname}(p0: float, p1: float):\n{head}{body}"
+        kbad = f"@tweezer\ndef {kname}_bad(p0: float, p1: float):\n{head}    action.move(g)\n{body}"
+        ns = {kname: kernels.define(ksrc)[kname], kname + "_bad": kernels.define(kbad)[kname + "_bad"]}
+        want_tones = (list(eval(xt)), list(eval(yt)))
+        for callee, rev in (("f", False), ("r", True)):
+            direct = tc.abstract_path(tc.run_impl(ns[kname], (1.0, 3.0), S)[1])
+            if rev:
+                from props.c02 import _rev_abs
+                direct = _rev_abs(direct)
+            want = pos_text(direct)
+            for rname, dec, plain, byparam in ROUTES:
+                call = {False: f"{callee}(1.0, p1=3.0)", True: f"{callee}(x0, p1=x1)", "mixed": f"{callee}(1.0, p1=x1)"}[byparam]
+                for bad in (False, True):
+                    kn = kname + ("_bad" if bad else "")
+                    src = (f"@move{dec}\ndef main({'x0: float, x1: float' if byparam else ''}):\n    f = schedule.device_fn({kn}, {xt}, {yt})\n"
+                           f"    r = schedule.reverse(f)\n    {call}\n")
+                    try:
+                        m = kernels.define(src, S=S, **ns)["main"]
+                        st, evs, extra = events.run_events(m, (1.0, 3.0) if byparam else (), S, plain=plain)
+                    except Exception as e:
+                        st, evs, extra = "err", [], f"{type(e).__name__}: {e}"
+                    ctx.evaluations += 1
+                    rep = {"kernel": kbad if bad else ksrc, "main": src, "route": rname, "tones": [xt, yt]}
+                    if bad:
+                        if st == "ok" and any(e[0] == "play" for e in evs):
+                            ctx.fail({"kind": "path-from-failing-kernel", "route": rname, "tone_lists": f"{xt}/{yt}"}, rep,
+                                     f"{rname}: a kernel that moves before set_loc (tones {xt}/{yt}) is given a path")
+                        else:
+                            n_ok += 1
+                        continue
+                    if st != "ok" or len(evs) != 1 or evs[0][0] != "play":
+                        ctx.fail({"kind": "no-path", "route": rname, "tone_lists": f"{xt}/{yt}"}, rep, f"{rname}: device function with tones {xt}/{yt} did not play a path: {str(extra)[:120]}")
+                        continue
+                    got = pos_text(tc.abstract_path(evs[0][1].path))
+                    tones = (list(evs[0][1].x_tones), list(evs[0][1].y_tones))
+                    if got != want or tones != want_tones:
+                        ctx.fail({"kind": "wrong-path", "route": rname, "tone_lists": f"{xt}/{yt}", "reversed": rev}, rep,
+                                 f"{rname}: {'reversed ' if rev else ''}device function with tones {xt}/{yt} gave tones {tones} path {got[:100]} expected {want[:100]}")
+                    else:
+                        n_ok += 1
+                        ctx.nt(("tones", kname, rname, rev))
+    ctx.count("tone-list forms x routes x fwd/rev x (working, failing kernel): agree", n_ok)
 
 
 def no_switch_cases(ctx, S):
